@@ -68,6 +68,10 @@ func (t Tuple) M__str__() (Object, error) {
 }
 
 func (t Tuple) M__repr__() (Object, error) {
+	if len(t) == 1 {
+		// a one element tuple needs the trailing comma to read back as a tuple
+		return t.repr("(", ",)")
+	}
 	return t.repr("(", ")")
 }
 
